@@ -26,6 +26,15 @@ def log(*a):
     print(*a, flush=True)
 
 
+def native_replayable(name):
+    """Harnesses whose environment exists only inside CBMC (Kani stubs for pointer/address modelling,
+    calls through x86-interrupt function pointers) carry `_nr` in their name: their counterexamples
+    cannot be executed natively and are reported from the solver's trace alone."""
+    short = name.rsplit("::", 1)[-1]
+    short = re.sub(r"_(xpanic|mpanic)$", "", short)
+    return not short.endswith("_nr")
+
+
 def harness_mode(name):
     short = name.rsplit("::", 1)[-1]
     if short.endswith("_xpanic"):
@@ -169,7 +178,7 @@ def classify(prop, results, known, expected_panics=()):
     return violations, findings, inconclusive, tot, per_harness
 
 
-def replay(ov, prop, item, extra, timeout=900):
+def replay(ov, prop, item, extra, timeout=900, native=True):
     """Concrete playback of one failing harness; returns (reproduced: bool|None, path, note).
 
     Kani prints one unit test per failing check / cover (`--concrete-playback=print`).  The tests are
@@ -208,6 +217,12 @@ def replay(ov, prop, item, extra, timeout=900):
                  f"// to re-run: build the overlay, append this module to the harness file and run\n"
                  f"//   cargo kani playback -Z concrete-playback [--release] -- verif_playback\n\n"
                  f"#[cfg(test)]\nmod verif_playback {{\n{body}\n}}\n")
+    if not native:
+        with open(path, "a") as fh:
+            fh.write("\n// native replay: not available -- this harness runs in a CBMC-only environment (Kani stubs model\n"
+                     "// pointer/address conversions that cannot exist in a user-space process); the values above are the\n"
+                     "// solver's counterexample for the harness's symbolic inputs.\n")
+        return True, path, "solver counterexample (no native replay: CBMC-only environment)"
     # locate the harness file in the overlay
     target = None
     for d, _, fs in os.walk(os.path.join(ov, "src")):
@@ -309,8 +324,8 @@ def run_check(prop, tier, cfg):
             groups.setdefault((v["label"], v["where"]), []).append(v)
         for key, members in groups.items():
             rep_v = members[0]
-            if cfg.get("no_replay"):
-                rep, path, note = True, "", "replay disabled for this engine"
+            if not native_replayable(rep_v["harness"]):
+                rep, path, note = replay(ov, prop, rep_v, extra, native=False)
             else:
                 rep, path, note = replay(ov, prop, rep_v, extra)
             for v in members:
